@@ -128,7 +128,8 @@ class LCAOInterpolator:
             )
 
         shape = (nrad, self.atco.nbas, 4)
-        if self._n0 > 0:
+        if self._n0 > 0 or self._n1 > 0:
+            # the l+1 part of each l=1 feature is also splined in this basis
             self.w0_rsp = np.empty(shape, dtype=np.float64, order="C")
             _call_spline_(self.w0_rsp, self._l0bas, self._l0env)
         if self._n1 > 0:
